@@ -173,4 +173,64 @@ theorem lmpS_final_polls (fr : List (Nat × Nat)) (T : Nat) (hT : sumLens (fr.ma
     simp only [lmpFinalS, ne_eq, not_true_eq_false, if_false, hall, h2, hnil]
     omega
 
+theorem lmpFinalS_le (fr : List (Nat × Nat)) (cuts : List Nat) (d m : Nat) (hd : d ≤ fr.length) :
+    (lmpFinalS fr cuts d m).1 ≤ fr.length := by
+  induction cuts generalizing d m with
+  | nil => exact hd
+  | cons c cs ih =>
+    simp only [lmpFinalS]
+    by_cases hm : m ≠ 0
+    · by_cases h : c < endOf fr d <;> simp only [hm, h, if_true, if_false, ne_eq, not_false_eq_true] <;> exact ih _ _ hd
+    · simp only [hm, if_false]
+      apply ih
+      have := (lmpCountS_spec (fr.drop d) (c - endOf fr d)).1
+      simp only [List.length_drop] at this
+      omega
+
+/-! ### the one-byte-lag specification `lmpCount` / `lmpStages` is the case "every slack = 1" -/
+
+theorem lmpCountS_slack_one (fr : List (Nat × Nat)) (h : ∀ f ∈ fr, f.2 = 1) (n : Nat) :
+    lmpCountS fr n = ((lmpCount (fr.map Prod.fst) n).1, if (lmpCount (fr.map Prod.fst) n).2 then 1 else 0) := by
+  induction fr generalizing n with
+  | nil => rfl
+  | cons f fs ih =>
+    have hf : f.2 = 1 := h f (by simp)
+    have hfs : ∀ g ∈ fs, g.2 = 1 := fun g hg => h g (by simp [hg])
+    by_cases h1 : f.1 ≤ n
+    · simp only [lmpCountS, lmpCount, List.map_cons, h1, if_true, ih hfs (n - f.1)]
+    · by_cases h2 : f.1 = n + 1
+      · have h3 : f.1 ≤ n + f.2 := by omega
+        have h4 : ¬ (n + 1 ≤ n) := by omega
+        have h5 : f.1 - n = 1 := by omega
+        simp only [lmpCountS, lmpCount, List.map_cons, h1, h3, if_false, if_true, h5]
+        simp only [h2, h4, if_false, if_true]
+      · have h3 : ¬ f.1 ≤ n + f.2 := by omega
+        simp [lmpCountS, lmpCount, h1, h2, h3]
+
+theorem lmpStagesS_slack_one {F : Type} (fr : List (Nat × Nat)) (h : ∀ f ∈ fr, f.2 = 1) (dec : List F)
+    (cuts : List Nat) (d : Nat) (late : Bool) :
+    lmpStagesS fr dec cuts d (if late then 1 else 0) = lmpStages (fr.map Prod.fst) dec cuts d late := by
+  induction cuts generalizing d late with
+  | nil => rfl
+  | cons c cs ih =>
+    have hdrop : ∀ g ∈ fr.drop d, g.2 = 1 := fun g hg => h g (List.mem_of_mem_drop hg)
+    have hend : endOf fr d = sumLens ((fr.map Prod.fst).take d) := by simp [endOf, List.map_take]
+    cases late with
+    | true =>
+      have h10 : (1 : Nat) ≠ 0 := by omega
+      simp only [lmpStagesS, lmpStages, if_true, ne_eq, h10, not_false_eq_true, hend]
+      by_cases hc : c < sumLens ((fr.map Prod.fst).take d)
+      · simp only [hc, if_true]
+        have := ih d true
+        simp only [if_true] at this
+        rw [this]
+      · simp only [hc, if_false]
+        have := ih d false
+        simp only [Bool.false_eq_true, if_false] at this
+        rw [this]
+    | false =>
+      simp only [lmpStagesS, lmpStages, Bool.false_eq_true, if_false, ne_eq, not_true_eq_false, hend,
+        lmpCountS_slack_one _ hdrop, List.map_drop]
+      rw [ih]
+
 end Infretis.Readers
